@@ -84,6 +84,7 @@ func cmdTeletext(args []string) error {
 	out := fs.String("out", "", "trace ndjson")
 	n0 := fs.Int("n0", 0, "first case number")
 	dump := fs.String("dump", "", "also write some of the streams as .ts files into this directory")
+	dumpAll := fs.Bool("dumpall", false, "write every stream, not one in four")
 	fs.Int64("seed", 1, "unused")
 	fs.Int("num", 0, "unused")
 	fs.Parse(args)
@@ -124,7 +125,7 @@ func cmdTeletext(args []string) error {
 			}
 		}
 		ci++
-		if *dump != "" && ci%4 == 1 && ci < 40 {
+		if *dump != "" && (*dumpAll || ci%4 == 1) && ci < 40 {
 			c.St.Norm()
 			if b, err := tsx.Build(c.St); err == nil {
 				ioutil.WriteFile(filepath.Join(*dump, fmt.Sprintf("gen%d-%d.ts", *n0, ci)), b, 0o644)
